@@ -44,7 +44,7 @@ THEOREMS = [
     'C09_parse_material_classes', 'C09_like_but_rho',
     'C09_like_but_void_refuted', 'C09_pot_fill_provenance',
     'C09_provenance_head_is_leaf', 'C09_treat_fill_total',
-    'C09_lattice_elements', 'C09_geomcomp_name',
+    'C09_lattice_elements', 'C09_lattice_leaf_material', 'C09_geomcomp_name',
     'C09_geomcomp_one_line', 'C09_geomcomp_lines',
     'C09_volume_gets_leaf_material', 'C09_compositions_exact',
     'C09_compositions_distinct', 'C09_geomcomp_name_has_composition',
